@@ -874,8 +874,6 @@ func runL2(seed uint64, idx int, o *out, tier string) {
 	mkSinks()
 	defer func() {
 		for _, s := range sinks {
-			_ = s.ln.Close()
-			s.resetAll()
 			close(s.done)
 		}
 	}()
@@ -892,7 +890,20 @@ func runL2(seed uint64, idx int, o *out, tier string) {
 		e = balancer.VerifNewLive(cfg, []string{sinks[0].addr()}, []string{sinks[1].addr()})
 	}
 	h := balancer.VerifNewHandler(e)
-	defer e.Close()
+	// cleanup order matters: a sender blocked inside WriteTo (no write deadline) only returns when its peer resets the
+	// connection, and Egress.Close waits for the senders
+	defer func() {
+		for _, s := range sinks {
+			_ = s.ln.Close()
+			s.resetAll()
+		}
+		closed := make(chan struct{})
+		go func() { _ = e.Close(); close(closed) }()
+		select {
+		case <-closed:
+		case <-time.After(timerBudget):
+		}
+	}()
 	var pushes []pushRec
 	seq := uint32(0)
 	push := func(n int) {
